@@ -149,6 +149,31 @@ Theorem published_dates_valid f r c rt v s :
 Proof. exact (tables_dates_valid published_regimes published_dates_valid_check f r c rt v s). Qed.
 Print Assumptions published_dates_valid.
 
+(* ---- the order test of RateDef validation (checkRateValuesOrder) ---- *)
+
+(* it accepts only strictly descending unqualified values - provided each carries a valid date *)
+Theorem order_validator_sound vals :
+  check_order vals None = Some true -> all_dated vals -> strictly_descending (filter unqualified vals).
+Proof. exact (check_order_sound vals). Qed.
+Print Assumptions order_validator_sound.
+
+(* without the proviso it is not sound for the property's order: an undated value listed first is
+   accepted (and shadows every later value); an undated value listed last makes the code dereference
+   a nil date (None); an invalid date switches the test off *)
+Theorem order_validator_gaps_refuted :
+  let dated y := mkValue (Some (mkDate y 1 1)) (mkPct 1 2) None [] [] false in
+  let undated := mkValue None (mkPct 2 2) None [] [] false in
+  let invalid := mkValue (Some (mkDate 2021 2 30)) (mkPct 3 2) None [] [] false in
+  check_order [undated; dated 2020] None = Some true /\
+  table_unqualified_strict [undated; dated 2020] = false /\
+  value (mkDate 2021 1 1) [] [] [undated; dated 2020] = Some undated /\
+  check_order [dated 2020; undated] None = None /\
+  table_unqualified_strict [dated 2020; undated] = true /\
+  check_order [dated 2020; invalid; dated 2022] None = Some true /\
+  table_unqualified_strict [dated 2020; invalid; dated 2022] = false.
+Proof. exact check_order_gaps. Qed.
+Print Assumptions order_validator_gaps_refuted.
+
 (* ---- defect #1: the comparison as shipped (`rv.Since.Before(date)`) ---- *)
 
 (* With the shipped comparison a value is NOT in force on its start date: on 2012-09-01 the lookup
